@@ -6,7 +6,7 @@
    (PyError), or a decoded UPDATE with no announced route and the treat-as-withdraw mark; never End-of-RIB. *)
 From Coq Require Import ZArith Bool List.
 From ExaV Require Import gen.Gen_AttrTable gen.Gen_NlriRegistry model.Model_Nlri model.Model_Update spec.Spec_Wire
-  proofs.Proofs_Nlri proofs.Proofs_Update proofs.Proofs_Update2 proofs.Proofs_Update3 proofs.Proofs_Update4.
+  proofs.Proofs_Nlri proofs.Proofs_Update proofs.Proofs_Update2 proofs.Proofs_Update3 proofs.Proofs_Update4 proofs.Proofs_Update5.
 Import ListNotations.
 Open Scope Z_scope.
 
@@ -45,7 +45,7 @@ Proof. exact rfc7606_taw. Qed.
    Transitive bits in conflict, or MP_REACH framing broken (shorter than its fixed fields, family not negotiated,
    Length of Next Hop not one the <AFI, SAFI> allows with the negotiated RFC 8950 rows, next hop running past the
    attribute), or MP_UNREACH shorter than 3 octets / family not negotiated.  Then the session is reset or nothing is
-   announced.  (mpls-vpn families: correspondence only.) *)
+   announced.  (mpls-vpn families: C08_rfc7606_mp_vpn_partial below.) *)
 Theorem C08_rfc7606_mp_partial : forall opq s b wb ab nb l r,
   plain_sess s -> wfb b -> sections b = Some (wb, ab, nb) -> tlvs (length ab) ab = Some l ->
   find_raw l (r_code r) = Some r -> (r_code r = 14 \/ r_code r = 15) ->
@@ -55,6 +55,36 @@ Theorem C08_rfc7606_mp_partial : forall opq s b wb ab nb l r,
   (zlen b =? EOR_PREFIX_LENGTH) && is_prefix EOR_PREFIX b = false ->
   no_announce (dec_update opq s b).
 Proof. exact rfc7606_mp. Qed.
+
+(* ---- the same for sessions of ALL eight IP families, the mpls-vpn ones included (ip_sess): there the reference also
+   demands that the Route Distinguisher in front of the next hop is zero (RFC 4364 4.3.2 / RFC 4659 3.2.1.1) and the
+   tree tests `sum(rd) != 0`, which is the same thing for octets (wfb b).  `_partial`: one form is set aside by
+   hypothesis, nh40_tolerated - Length of Next Hop 40 on an mpls-vpn route whose next hop may be IPv6 (RD + global +
+   link-local, the form ExaBGP wrote itself before the 48 octets of RFC 4659); Family.size lists it on purpose and
+   the tree decodes it: C08_vpn_nexthop40_tolerated. *)
+Theorem C08_rfc7606_mp_vpn_partial : forall opq s b wb ab nb l r,
+  ip_sess s -> wfb b -> sections b = Some (wb, ab, nb) -> tlvs (length ab) ab = Some l ->
+  find_raw l (r_code r) = Some r -> (r_code r = 14 \/ r_code r = 15) ->
+  flags_conflict (r_code r) (r_flags r)
+  || ((r_code r =? 14) && mp_reach_malformed (rs_of s) (r_val r))
+  || ((r_code r =? 15) && mp_unreach_malformed (rs_of s) (r_val r)) = true ->
+  (r_code r =? 14) && nh40_tolerated (rs_of s) (r_val r) = false ->
+  (zlen b =? EOR_PREFIX_LENGTH) && is_prefix EOR_PREFIX b = false ->
+  no_announce (dec_update opq s b).
+Proof. exact rfc7606_mp_ip. Qed.
+
+(* the form set aside is real: 2/128 with a 40-octet next hop is outside the reference's table and decoded by the tree *)
+Theorem C08_vpn_nexthop40_tolerated :
+  mp_reach_malformed (rs_of s_vpn6) v_nh40 = true /\ nh40_tolerated (rs_of s_vpn6) v_nh40 = true
+  /\ dec_mp_reach s_vpn6 v_nh40 = VOk (VBytes v_nh40).
+Proof. exact nh40_witness. Qed.
+
+(* non-vacuity on a VPN session (not a plain one): a next hop whose RD is not zero is refused with 3/0 *)
+Example C08_vpn_example :
+  ip_sess s_vpn6 /\ ~ plain_sess s_vpn6
+  /\ mp_reach_malformed (rs_of s_vpn6) v_rd_nonzero = true /\ nh40_tolerated (rs_of s_vpn6) v_rd_nonzero = false
+  /\ dec_update no_opq s_vpn6 w_vpn_rd = Refused 3 0.
+Proof. exact vpn_rd_witness. Qed.
 
 (* ---- RFC 7606, attribute discard.  ab: any byte string of bytes (the Path Attributes field) whose TLVs l carry no
    code twice and are each acceptable: well formed for the reference (and of a modelled type), OR a malformed
@@ -123,6 +153,8 @@ Print Assumptions C08_no_overrun.
 Print Assumptions C08_no_overrun_refuted.
 Print Assumptions C08_rfc7606_partial.
 Print Assumptions C08_rfc7606_mp_partial.
+Print Assumptions C08_rfc7606_mp_vpn_partial.
+Print Assumptions C08_vpn_nexthop40_tolerated.
 Print Assumptions C08_discard_class_partial.
 Print Assumptions C08_treat_as_withdraw_announces_nothing.
 Print Assumptions C08_rfc7606_pinned_refuted.
